@@ -126,11 +126,13 @@ func genC12(r *Rng, tier string, idx int) *Program {
 			p.Holds = append(p.Holds, Hold{Task: r.Range(1, nt), Site: PickOf(r, sites), Nth: r.Range(1, 6), Len: r.Range(20, 150)})
 		}
 	}
-	switch r.Pick([]int{60, 20, 20}) {
+	switch r.Pick([]int{50, 20, 20, 10}) {
 	case 1:
 		genC12ColdCache(r, p)
 	case 2:
 		genC12ColdPos(r, p)
+	case 3:
+		genC12RetentionVsCompaction(r, p)
 	}
 	for i := 0; i < 400 || i < int(p.Params["max_steps"]); i++ {
 		p.Schedule = append(p.Schedule, r.Intn(1000))
@@ -175,6 +177,51 @@ func genC12ColdCache(r *Rng, p *Program) {
 	p.Holds = []Hold{{Task: 2, Site: "client:list:done:L1", Nth: r.Range(1, 5), Len: r.Range(30, 150)}}
 	if r.Chance(0.5) {
 		p.Holds = append(p.Holds, Hold{Task: r.Range(1, 2), Site: "client:", Nth: r.Range(1, 20), Len: r.Range(30, 150)})
+	}
+}
+
+// genC12RetentionVsCompaction: snapshot retention (and its cascade to the lower
+// levels) runs while the level-2 monitor sits between listing level 1 and
+// opening the files it listed.
+func genC12RetentionVsCompaction(r *Rng, p *Program) {
+	p.Variant = "retention-vs-compaction"
+	p.Cfg.LevelMs = []int64{2000, 9000}
+	p.Cfg.SnapshotRetentionMs = 20000
+	p.Cfg.L0RetentionMs = []int64{0, 1000}[r.Intn(2)]
+	p.Cfg.RetentionEnabled = true
+	p.Params["tasks"] = 3
+	p.Params["aux_dbs"] = 0
+	p.Params["sticky"] = 850
+	p.Params["max_steps"] = 2500
+	p.Ops = nil
+	for i := 0; i < r.Range(25, 40); i++ {
+		st := genTxn(r, &p.Cfg)
+		st.Rollback = false
+		p.Ops = append(p.Ops, Op{Kind: "app", Step: &st, Level: 0})
+	}
+	add := func(tk int, ops ...Op) {
+		for _, op := range ops {
+			op.Level = tk
+			p.Ops = append(p.Ops, op)
+		}
+	}
+	for i := 0; i < r.Range(8, 12); i++ {
+		add(1, Op{Kind: "ls_sync_wait"}, Op{Kind: "ls_compact", N: 1})
+	}
+	// the level-2 monitor starts late (level 2 is several level-1 files behind)
+	for i := 0; i < r.Range(6, 14); i++ {
+		add(2, Op{Kind: "status"}, Op{Kind: "ls_replica_sync"})
+	}
+	for i := 0; i < r.Range(3, 6); i++ {
+		add(2, Op{Kind: "ls_compact", N: 2}, Op{Kind: "status"})
+	}
+	for i := 0; i < r.Range(10, 16); i++ {
+		add(3, Op{Kind: "ls_compact", N: 9}, Op{Kind: "ls_snap_retention"})
+	}
+	p.Params["max_steps"] = 4000
+	p.Holds = []Hold{{Task: 2, Site: "client:list:done:L1", Nth: r.Range(1, 3), Len: r.Range(300, 700)}}
+	if r.Chance(0.5) {
+		p.Holds = append(p.Holds, Hold{Task: 2, Site: "client:list:done:L1", Nth: r.Range(3, 6), Len: r.Range(300, 700)})
 	}
 }
 
